@@ -792,8 +792,7 @@ func TestC13(t *testing.T) {
 		}
 	}
 
-	rep.CoqFiles = append(rep.CoqFiles, f.finish(t, dir))
-	rep.CaseFiles = append(rep.CaseFiles, writeJSONL(t, dir, "C13_remote_cases.jsonl", jl))
+	f.finishSharded(t, dir, rep, jl, 400)
 	rep.Assumptions = append(rep.Assumptions, "the in-memory transport delivers messages in order and fails only between messages; buffer capacity is fixed (initial = maximum) so the window test is a function of the log length")
 	rep.write(t, dir)
 }
